@@ -188,3 +188,22 @@ Definition run_clone (p : profile) (id : N) (args : list arg) : list string :=
   let T := if id =? 22 then tdesc_generic HTagH else kind_tdesc k in
   let r := (img <- run_ctor_img p id args ;; c <- clone_dyn p HTagH T img PAD ;; Val (img, c)) in
   [ line "clone" (sRes (fun x => "orig " ++ sImg (fst x) ++ " clone " ++ sImg (snd x)) r) ].
+
+(* cloneparsed <region>: clone_dyn of the first tag of every dynamically sized kind of a LOADED boot information
+   (its padding is whatever the boot loader left there) *)
+Definition clone_kinds : list kind := [KCmdline; KBootLoaderName; KModule; KMmap; KFramebuffer; KElfSections; KSmbios; KNetwork; KEfiMmap].
+Definition run_cloneparsed (p : profile) (bs : list byte) : list string :=
+  let m := {| m_base := 0; m_bytes := bs |} in
+  match mbi_load p false m with
+  | Val r =>
+      map (fun k =>
+             line "clone" (sN (kind_typ k) ++ " " ++
+               match get_tag p k m r with
+               | Val (Some t) =>
+                   let img := slice bs (t_off t) (tref_size_of_val k t) in
+                   sRes (fun c => "orig " ++ sImg img ++ " clone " ++ sImg c) (clone_dyn p HTagH (kind_tdesc k) img PAD)
+               | Val None => "none"
+               | x => sRes (fun _ => "") x
+               end)) clone_kinds
+  | _ => [line "clone" "noload"]
+  end.
